@@ -1,8 +1,11 @@
 """property id -> check function"""
 import json
-from . import p_fs
+from . import p_fs, p_plan
 
 CHECKS = {
+    "C01": p_plan.check_c01,
+    "C03": p_plan.check_c03,
+    "C05": p_plan.check_c05,
     "C15": p_fs.check_c15,
     "C16": p_fs.check_c16,
 }
